@@ -99,6 +99,23 @@ func c09Session(c *Ctx, nSenders, perSender int, pacing string, procs int) {
 			}
 		}()
 	}
+	if tmo > 0 && tmo <= 5*time.Millisecond {
+		// with a tiny Config.Timeout the peer now and then stops reading in the MIDDLE of a line for longer than that
+		// (a few bytes go through, the rest later): slow is not down, and what was written once is not written again
+		desc += " (peer stalls in mid-line for 3 x timeout now and then)"
+		rp["mid_line_stalls"] = true
+		go func() {
+			for k := 0; ; k++ {
+				select {
+				case <-stopPace:
+					return
+				default:
+				}
+				sess.srv.StallNextWrite(1+k%9, 3*tmo)
+				time.Sleep(300 * time.Microsecond)
+			}
+		}()
+	}
 	line := func(s, q int) string { return fmt.Sprintf("PRIVMSG #c :s%d-%d-%s", s, q, c09Payload(s, q)) }
 	// user goroutines issue their lines through different command methods (the property is about "every line handed
 	// to the client", not about Raw): the form is a function of (sender, sequence number), so the wire can be checked
